@@ -158,6 +158,9 @@ def parseV (l : Line) : Option VOp :=
   | "resize_v" => do some (.resizev (← l.nat? "n") (← v))
   | "assign_n" => do some (.assignn (← l.nat? "n") (← v))
   | "assign_r" => (l.natList? "xs").map .assignr
+  | "ctor_n" => (l.nat? "n").map .ctorN
+  | "ctor_nv" => do some (.ctorNV (← l.nat? "n") (← v))
+  | "ctor_r" => (l.natList? "xs").map .ctorR
   | "erase_if" => do some (.eraseIf (← l.nat? "md") (← l.nat? "r"))
   | "cctor" => some .cctor
   | "mctor" => some .mctor
@@ -186,6 +189,7 @@ def parseS (l : Line) : Option SOp :=
   | "swap" => some .swap
   | "swap_self" => some .swapSelf
   | "extract" => some .extract
+  | "replace" => (l.natList? "xs").map .replace
   | _ => none
 
 def parseX (l : Line) : Option XOp :=
@@ -195,6 +199,8 @@ def parseX (l : Line) : Option XOp :=
   | "vemplace" => do some (.emplace (← j) (← v))
   | "vemplace_c" => do some (.emplaceCopy (← j) (← v))
   | "vemplace_m" => do some (.emplaceMove (← j) (← v))
+  | "vassign_c" => do some (.assignCopy (← j) (← v))
+  | "vassign_m" => do some (.assignMove (← j) (← v))
   | "oassign_c" => v.map .optAssignCopy
   | "oassign_m" => v.map .optAssignMove
   | "reset" => some .reset
@@ -217,6 +223,10 @@ def parseF (l : Line) : Option FOp :=
   | "fctor_m" => do some (.ctorMove (← j) (← v))
   | "fassign_c" => do some (.assignCopy (← j) (← v))
   | "fassign_m" => do some (.assignMove (← j) (← v))
+  | "fconv_cc" => do some (.conv false false (← j) (← v))
+  | "fconv_mc" => do some (.conv false true (← j) (← v))
+  | "fconv_ca" => do some (.conv true false (← j) (← v))
+  | "fconv_ma" => do some (.conv true true (← j) (← v))
   | "reset" => some .reset
   | "cctor" => some .cctor
   | "mctor" => some .mctor
@@ -228,6 +238,13 @@ def parseF (l : Line) : Option FOp :=
   | "swap_self" => some .swapSelf
   | "invoke" => some .invoke
   | _ => none
+
+/-- which operations exist for which variant-like owner (mirrors the harness): the converting assignment ops are
+    variant's, `optional = T` and `reset` are optional's -/
+def xmember (own : Own) : XOp → Bool
+  | .assignCopy _ _ | .assignMove _ _ | .assignOwn => own == .var
+  | .optAssignCopy _ | .optAssignMove _ | .reset => own == .opt
+  | _ => true
 
 def bindSt (m : Except LErr St) (f : St → Except LErr St) : Except LErr St :=
   match m with
@@ -246,7 +263,7 @@ def opStep (ss : Ses) (l : Line) : Option Ses :=
       { ss with model := bindSt ss.model (fun s => sstep .ss ss.k ss.cap s t op), spec := Spec.sstep ss.cap ss.spec t op }
   | .fs => (parseS l).map fun op =>
       { ss with model := bindSt ss.model (fun s => sstep .fs ss.k ss.cap s t op), spec := Spec.sstep ss.cap ss.spec t op }
-  | .var | .opt | .exp => (parseX l).map fun op =>
+  | .var | .opt | .exp => ((parseX l).filter (xmember ss.own)).map fun op =>
       { ss with model := bindSt ss.model (fun s => xstep ss.k ss.own.trk s t op), spec := Spec.xstep ss.own.trk ss.spec t op }
   | .fn => (parseF l).map fun op =>
       { ss with model := bindSt ss.model (fun s => fstep ss.k s t op), spec := Spec.fstep ss.spec t op }
